@@ -9,7 +9,7 @@ use crate::keys::OsCode;
 use std::sync::Arc;
 
 // OsCode::KEY_MAX is the biggest OsCode
-pub const KEYS_IN_ROW: usize = OsCode::KEY_MAX as usize;
+pub const KEYS_IN_ROW: usize = OsCode::KEY_MAX as usize + 1;
 pub const LAYER_ROWS: usize = 2;
 pub const DEFAULT_ACTION: KanataAction = KanataAction::KeyCode(KeyCode::ErrorUndefined);
 
